@@ -295,7 +295,7 @@ struct Prob {
     double sysW = Infinity;
     std::set<int> lockMob; std::set<std::pair<int, int>> lockQ; std::vector<BoundD> bounds; std::vector<int> dynLock;
     double acc = 0, tol = 0; bool rms = false, numGrad = false, numJac = false;
-    bool achievable = true; double delta = 0;
+    bool achievable = true; double delta = 0; bool noFree = false;
     // derived
     std::vector<char> fixedQ;       // per Euler q index: locked by the study (mobilizer lock, q lock, dynamic lock)
     std::vector<char> prescQ;       // per Euler q index: prescribed by a Motion
@@ -402,6 +402,7 @@ static void genProblem(Rng& r, const Sys& S, Prob& P, long idx, bool unlistedTai
     auto nFree = [&]() { int n = 0; for (int i = 0; i < nqE; ++i) if (!P.fixedQ[i] && !P.prescQ[i]) ++n; return n; };
     if (nFree() == 0) { P.lockMob.clear(); P.dynLock.clear(); mark(); }
     if (nFree() == 0) { P.lockQ.clear(); mark(); }
+    P.noFree = nFree() == 0;       // every coordinate prescribed: the study has nothing to solve for
     // ---- tolerances
     if (P.achievable) { P.acc = r.logUni(1e-8, 1e-7); P.tol = r.coin(0.8) ? (r.coin() ? 1e-4 : 1e-3) : 0.0; }
     else { int k = r.integer(0, 3); P.acc = k == 0 ? 0.0 : k == 1 ? 1e-4 : k == 2 ? 1e-5 : 1e-6; P.tol = r.coin(0.5) ? 0.0 : r.logUni(1e-6, 1e-3); }
@@ -675,6 +676,7 @@ static void caseAssembler(Ctx& c, long idx, Rng& r, bool unlistedTail) {
     SysOpts o; o.maxBodies = 5; o.maxCons = 2; o.pCons = 0.55; o.motions = true; o.flags = true;
     if (!buildSys(c, r, idx, S, o, nullptr)) return;
     genProblem(r, S, P, idx, unlistedTail);
+    if (P.noFree) { c.skip("asm:no-free-coordinates"); return; }
     const int nqE = S.sRef.getNQ(); const Vector& qRef = S.sRef.getQ();
     // ---- start configuration (Euler)
     bool offPrescription = !S.mots.empty() && r.coin(0.3);
@@ -848,7 +850,7 @@ static double fitObjective(const Sys& S, const State& st, const std::vector<int>
 
 static void caseFitter(Ctx& c, long idx, Rng& r) {
     Sys S; c.setPhase("fit build");
-    SysOpts o; o.minBodies = 1; o.maxBodies = 5; o.maxCons = 1; o.pCons = 0.35; o.heavyCons = false; o.flags = true;
+    SysOpts o; o.minBodies = 1; o.maxBodies = 4; o.maxCons = 1; o.pCons = 0.35; o.heavyCons = false; o.flags = true;
     if (!buildSys(c, r, idx, S, o, nullptr)) return;
     const int nb = S.nNodes(); const Vector& qRef = S.sRef.getQ();
     bool achievable = r.coin(0.5), weighted = r.coin(0.65);
@@ -926,7 +928,7 @@ static double forceScale(const Sys& S, const State& st) {
 }
 static void caseLEM(Ctx& c, long idx, Rng& r) {
     Sys S; c.setPhase("lem build");
-    SysOpts o; o.minBodies = 1; o.maxBodies = 3; o.maxCons = 1; o.pCons = 0.4; o.heavyCons = false; o.flags = true;
+    SysOpts o; o.minBodies = 1; o.maxBodies = 3; o.maxCons = 1; o.pCons = 0.3; o.heavyCons = false; o.flags = true;
     std::string fkinds;
     auto addForces = [&](Sys& s, Rng& rr) {
         if (rr.coin(0.8)) { Force::UniformGravity(s.m.forces, s.m.matter, randVec3(rr, 6.0), rr.sym(1.0)); fkinds += "g"; }
@@ -939,7 +941,7 @@ static void caseLEM(Ctx& c, long idx, Rng& r) {
         fkinds += "s";
     };
     if (!buildSys(c, r, idx, S, o, addForces)) return;
-    double tolerance = r.pick(std::vector<double>{1e-2, 1e-3, 1e-4, 1e-6});
+    double tolerance = r.pick(std::vector<double>{1e-2, 1e-3, 1e-4, 1e-5});
     State user0 = makeUserState(S, freshQ(S.sRef.getQ()), {});
     State user = user0;
     auto pe = [&](const State& st) { State f = st; f.updQ() = freshQ(st.getQ()); S.m.sys.realize(f, Stage::Dynamics); return (double)S.m.sys.calcPotentialEnergy(f); };
@@ -990,10 +992,10 @@ int main(int argc, char** argv) {
     const bool unlistedTail = a.getInt("unlisted-tail", 0) != 0;
     const std::string only = a.get("tool", "");
     return runCases(c, [&](long i, Rng& r) {
-        int t = (int)(i % 8);     // 0-4 Assembler; 5,6 fitter; 7 energy minimizer
-        if (only == "asm") t = 0; else if (only == "fit") t = 5; else if (only == "lem") t = 7;
-        if (t <= 4) caseAssembler(c, i, r, unlistedTail);
-        else if (t <= 6) caseFitter(c, i, r);
+        int t = (int)(i % 12);    // 0-8 Assembler; 9,10 fitter; 11 energy minimizer (cost-balanced mix)
+        if (only == "asm") t = 0; else if (only == "fit") t = 9; else if (only == "lem") t = 11;
+        if (t <= 8) caseAssembler(c, i, r, unlistedTail);
+        else if (t <= 10) caseFitter(c, i, r);
         else caseLEM(c, i, r);
     });
 }
